@@ -78,7 +78,11 @@ def stages(tier, rng, only=None):
         [ac.tied_first(rng) for _ in range(nq)], PARCONS, SCHEMES, flags=(1,), namings=["scatter", "collide", "letters"],
         env="standin"), _nt_run))
     # doubly-unranked pairs dearer to tie than to order (T[5] > B[5]) and the other way round
-    t5 = [ac.P_EXT, ([0, 4, 2, 0, 2, 1], [2, 2, 0, 1, 1, 3], 4), ac.P_UNI1, ([0, 4, 4, 0, 4, 0], [4, 4, 0, 4, 4, 2], 4)]
+    # (the last three make ties cheap inside the rankings that see a pair and dear in those that see neither element:
+    # whether a cycle is best tied or ordered then depends on the rankings that miss the whole component)
+    t5 = [ac.P_EXT, ([0, 4, 2, 0, 2, 1], [2, 2, 0, 1, 1, 3], 4), ac.P_UNI1, ([0, 4, 4, 0, 4, 0], [4, 4, 0, 4, 4, 2], 4),
+          ([0, 4, 4, 0, 4, 0], [1, 1, 0, 1, 1, 4], 4), ([0, 8, 8, 0, 8, 1], [3, 3, 0, 3, 3, 8], 8),
+          ([0, 4, 4, 0, 4, 6], [1, 1, 0, 1, 1, 0], 4)]
     out.append(ac.stage("sparse_cycles_t5", PID, lambda: ac.cases(
         [ac.cycle_plus_sparse(rng) for _ in range(nq)], PARCONS, t5, flags=(1,), all_schemes=True, namings=["ints", "letters"])
         + ac.cases([ac.cycle_plus_sparse(rng) for _ in range(nq // 2)], PARCONS, t5, flags=(1,), all_schemes=True,
